@@ -13,7 +13,7 @@ use serde_json::json;
 pub static SPEC: PropSpec = PropSpec {
     id: "C17",
     level: "exploration",
-    rule: "calls: receiver types {int32, int64, uint8, bool, string, unit, struct, enum, generic struct instance, tuple, nested struct} x receiver expression {variable, literal / struct literal / constructor, field projection, annotated call result} x call form {Tr::m(x, a); t.m(a) through T: Tr; Tr::m(t, a) through T: Tr; Tr::m(d, a) after `let d: dyn Tr = x`; through a `dyn Tr` parameter; element of Vec[dyn Tr] bound to a variable; second trait with the same method name; `impl Tr2 for dyn Tr1`; inherent x.im(a) and T::im(x, a)}; every applicable combination is emitted (a random subset of types per program, all forms) and every call prints the implementation's code; two-package projects in which the trait, five receiver types (struct, enum, generic enum, generic struct, nested struct), their impls and inherent methods live in an imported package and Main uses every call form on variables, annotated call results and parameters of those types. negative: dyn coercion of a type without impl (5 forms), Tr2::m on a `dyn Tr1` without impl, method call through two bounds declaring the same method, unknown method. non-trivial: every executed call; distinct by (type, receiver form, call form)",
+    rule: "calls: receiver types {int32, int64, uint8, int8, int16, uint16, uint32, uint64, float32, float64, bool, string, unit, struct, enum, generic struct instance, tuple, nested struct} x receiver expression {variable, literal / struct literal / constructor, field projection, annotated call result} x call form {Tr::m(x, a); t.m(a) through T: Tr; Tr::m(t, a) through T: Tr; Tr::m(d, a) after `let d: dyn Tr = x`; through a `dyn Tr` parameter; element of Vec[dyn Tr] bound to a variable; second trait with the same method name; `impl Tr2 for dyn Tr1`; inherent x.im(a) and T::im(x, a)}; every applicable combination is emitted (a random subset of types per program, all forms) and every call prints the implementation's code; two-package projects in which the trait, five receiver types (struct, enum, generic enum, generic struct, nested struct), their impls and inherent methods live in an imported package and Main uses every call form on variables, annotated call results and parameters of those types. negative: dyn coercion of a type without impl (5 forms), Tr2::m on a `dyn Tr1` without impl, method call through two bounds declaring the same method, unknown method. non-trivial: every executed call; distinct by (type, receiver form, call form)",
     eval_counter: "calls_checked",
     assumptions: &["relative to gomini's execution of the emitted Go; expected values are computed from the templates"],
     crash_is_violation: false,
@@ -40,6 +40,13 @@ const TYPES: &[RecvTy] = &[
     RecvTy { name: "int32", ty: "int32", literals: &[("7", 7), ("0", 0), ("41", 41)], digest: "self", has_inherent: false },
     RecvTy { name: "int64", ty: "int64", literals: &[("5i64", 5), ("90i64", 90)], digest: "(if self > 50i64 { 90 } else { 5 })", has_inherent: false },
     RecvTy { name: "uint8", ty: "uint8", literals: &[("200u8", 200), ("3u8", 3)], digest: "(if self > 100u8 { 200 } else { 3 })", has_inherent: false },
+    RecvTy { name: "int8", ty: "int8", literals: &[("7i8", 7), ("100i8", 100)], digest: "(if self > 50i8 { 100 } else { 7 })", has_inherent: false },
+    RecvTy { name: "int16", ty: "int16", literals: &[("300i16", 300), ("2i16", 2)], digest: "(if self > 100i16 { 300 } else { 2 })", has_inherent: false },
+    RecvTy { name: "uint16", ty: "uint16", literals: &[("7u16", 7), ("60000u16", 600)], digest: "(if self > 100u16 { 600 } else { 7 })", has_inherent: false },
+    RecvTy { name: "uint32", ty: "uint32", literals: &[("9u32", 9), ("4000000000u32", 400)], digest: "(if self > 100u32 { 400 } else { 9 })", has_inherent: false },
+    RecvTy { name: "uint64", ty: "uint64", literals: &[("11u64", 11), ("18000000000000000000u64", 180)], digest: "(if self > 100u64 { 180 } else { 11 })", has_inherent: false },
+    RecvTy { name: "float32", ty: "float32", literals: &[("1.5f32", 15), ("200.0f32", 20)], digest: "(if self > 100.0f32 { 20 } else { 15 })", has_inherent: false },
+    RecvTy { name: "float64", ty: "float64", literals: &[("2.5", 25), ("300.0", 30)], digest: "(if self > 100.0 { 30 } else { 25 })", has_inherent: false },
     RecvTy { name: "bool", ty: "bool", literals: &[("true", 1), ("false", 0)], digest: "(if self { 1 } else { 0 })", has_inherent: false },
     RecvTy { name: "string", ty: "string", literals: &[("\"ab\"", 2), ("\"\"", 1)], digest: "(if self == \"ab\" { 2 } else { 1 })", has_inherent: false },
     RecvTy { name: "unit", ty: "unit", literals: &[("()", 0)], digest: "0", has_inherent: false },
